@@ -21,11 +21,25 @@ class ClassInfo:
         self.annotations = []  # annotated fields in order (NamedTuple / dataclass style)
         self.setters = {}      # property name -> FunctionDef of its @<name>.setter
         self.decorators = list(node.decorator_list)
+        self.enum_kind = None
+        for b in bases:
+            leaf = b.split(".")[-1]
+            if leaf in ("IntEnum", "IntFlag"):
+                self.enum_kind = "int"
+            elif leaf in ("Enum", "StrEnum", "Flag") and self.enum_kind is None:
+                self.enum_kind = "plain"
+        self.dispatch_regs = {}  # dispatcher method name -> [FunctionDef registered with @<name>.register...]
         for st in node.body:
             if isinstance(st, ast.FunctionDef):
                 decos = [_deco_name(d) for d in st.decorator_list]
                 st._gs_module = module
                 st._gs_class = name
+                rt = _register_target(st)
+                if rt is not None:
+                    self.dispatch_regs.setdefault(rt, []).append(st)
+                    if st.name != "_":
+                        self.methods[st.name] = (st, False, False)      # also reachable under its own name
+                    continue
                 if "property" in decos or "cached_property" in decos:
                     self.props[st.name] = st
                 elif "setter" in decos:
@@ -37,7 +51,8 @@ class ClassInfo:
             elif isinstance(st, ast.Assign) and len(st.targets) == 1 and isinstance(st.targets[0], ast.Name):
                 self.consts[st.targets[0].id] = st.value
             elif isinstance(st, ast.AnnAssign) and isinstance(st.target, ast.Name):
-                self.annotations.append(st.target.id)
+                if "ClassVar" not in ast.unparse(st.annotation):
+                    self.annotations.append(st.target.id)
                 if st.value is not None:
                     self.consts[st.target.id] = st.value
 
@@ -52,6 +67,15 @@ def _deco_name(d):
     return None
 
 
+def _register_target(fn):
+    """`f` if fn is decorated with @f.register or @f.register(T) (functools.singledispatch registration), else None."""
+    for d in fn.decorator_list:
+        x = d.func if isinstance(d, ast.Call) else d
+        if isinstance(x, ast.Attribute) and x.attr == "register":
+            return ast.unparse(x.value)
+    return None
+
+
 def _base_name(b):
     if isinstance(b, ast.Name):
         return b.id
@@ -63,17 +87,32 @@ def _base_name(b):
 class Package:
     """All modules under <repo>/graphslam, parsed."""
 
-    def __init__(self, repo):
-        self.repo = os.path.abspath(repo)
-        self.root = os.path.join(self.repo, "graphslam")
-        if not os.path.isdir(self.root):
-            raise AnalysisError("no graphslam package under %s" % self.repo)
+    @classmethod
+    def from_source(cls, rel, src):
+        """A one-module package from source text (fixtures of the checkers' own self-tests)."""
+        self = object.__new__(cls)
+        self.repo = self.root = "<fixture>"
+        self._tables()
+        self._index(rel, ast.parse(src))
+        return self
+
+    def _tables(self):
         self.units = {}       # relpath -> dict(sha256, lines, tree, source)
         self.classes = {}     # class name -> ClassInfo  (nested classes as Outer.Inner)
         self.funcs = {}       # function name -> FunctionDef (module level)
         self.func_module = {}
         self.module_consts = {}   # module rel -> {name: ast expr}
         self.module_imports = {}  # module rel -> {local name: dotted origin}
+        self.module_classes = {}  # module rel -> {local class name: unique class name}  (private helper classes may share a name)
+        self.module_effects = {}  # module rel -> [module-level statements with side effects: X.attr = v, f(...), for/if blocks]
+        self.dispatch_regs = {}   # (module rel, dispatcher name) -> [FunctionDef registered with @<name>.register...]
+
+    def __init__(self, repo):
+        self.repo = os.path.abspath(repo)
+        self.root = os.path.join(self.repo, "graphslam")
+        if not os.path.isdir(self.root):
+            raise AnalysisError("no graphslam package under %s" % self.repo)
+        self._tables()
         for dirpath, dirnames, filenames in sorted(os.walk(self.root)):
             dirnames[:] = sorted(d for d in dirnames if d != "__pycache__")
             for fn in sorted(filenames):
@@ -100,6 +139,10 @@ class Package:
     def _index_stmt(self, rel, st, consts, imports):
         if isinstance(st, ast.ClassDef):
             self._add_class(rel, st, prefix="")
+        elif isinstance(st, ast.FunctionDef) and _register_target(st) is not None:
+            st._gs_module = rel
+            st._gs_class = None
+            self.dispatch_regs.setdefault((rel, _register_target(st)), []).append(st)
         elif isinstance(st, ast.FunctionDef):
             st._gs_module = rel
             st._gs_class = None
@@ -109,6 +152,15 @@ class Package:
             self.func_module[st.name] = rel
         elif isinstance(st, ast.Assign) and len(st.targets) == 1 and isinstance(st.targets[0], ast.Name):
             consts[st.targets[0].id] = st.value
+        elif isinstance(st, ast.Assign) and len(st.targets) == 1 and isinstance(st.targets[0], ast.Tuple) and \
+                isinstance(st.value, ast.Tuple) and len(st.value.elts) == len(st.targets[0].elts) and \
+                all(isinstance(t, ast.Name) for t in st.targets[0].elts):
+            for t, v in zip(st.targets[0].elts, st.value.elts):
+                consts[t.id] = v
+        elif isinstance(st, ast.AnnAssign) and isinstance(st.target, ast.Name) and st.value is not None:
+            consts[st.target.id] = st.value
+        elif isinstance(st, ast.If) and isinstance(st.test, ast.Name) and st.test.id == "TYPE_CHECKING":
+            pass
         elif isinstance(st, ast.Import):
             for a in st.names:
                 imports[a.asname or a.name.split(".")[0]] = a.name
@@ -118,11 +170,24 @@ class Package:
         elif isinstance(st, ast.Try):
             for s in st.body:
                 self._index_stmt(rel, s, consts, imports)
+        elif isinstance(st, ast.Expr) and isinstance(st.value, ast.Call):
+            f = ast.unparse(st.value.func)
+            if not f.startswith(("warnings.", "logging.", "_LOGGER.", "np.seterr", "matplotlib.")):
+                self.module_effects.setdefault(rel, []).append(st)
+        elif isinstance(st, (ast.Assign, ast.AugAssign)) or (isinstance(st, (ast.For, ast.While, ast.With)) ):
+            self.module_effects.setdefault(rel, []).append(st)
 
     def _add_class(self, rel, node, prefix):
         name = prefix + node.name
         if name in self.classes:
-            raise AnalysisError("duplicate class name %s (%s, %s)" % (name, rel, self.classes[name].module))
+            if not node.name.startswith("_"):
+                raise AnalysisError("duplicate class name %s (%s, %s)" % (name, rel, self.classes[name].module))
+            # private helper classes of different modules may share a name: keep them apart by module
+            name = "%s@%s" % (name, os.path.splitext(os.path.basename(rel))[0])
+            if name in self.classes:
+                raise AnalysisError("duplicate class name %s (%s, %s)" % (name, rel, self.classes[name].module))
+        if not prefix:
+            self.module_classes.setdefault(rel, {})[node.name] = name
         ci = ClassInfo(name, node, [_base_name(b) for b in node.bases], rel)
         self.classes[name] = ci
         for st in node.body:
@@ -137,7 +202,8 @@ class Package:
             n = todo.pop(0)
             if n in self.classes and n not in out:
                 out.append(n)
-                todo.extend(self.classes[n].bases)
+                local = self.module_classes.get(self.classes[n].module, {})
+                todo.extend(local.get(b, b) for b in self.classes[n].bases)
         return out
 
     def is_subclass(self, name, base):
